@@ -81,11 +81,8 @@ def batch_shared_tagged_nodes(ctx):
     kinds = node_kinds()
     cons = consumptions()
     tags = tag_sets()
-    if not ctx.thorough:
-        # quick tier: every tag pair and every consumption on two kinds, the pairs that name the node on all
-        kinds_for = lambda tg: list(kinds) if tg[1] != "none" and tg[0] != "none" else ["elementwise", "reduction"]   # noqa: E731
-    else:
-        kinds_for = lambda tg: list(kinds)   # noqa: E731
+    # quick tier: two of the four kinds (an element-wise node and a reduction)
+    kinds_for = (lambda tg: list(kinds)) if ctx.thorough else (lambda tg: ["elementwise", "reduction"])   # noqa: E731
     jobs, meta = [], []
     for tg, tset in tags.items():
         for kname in kinds_for(tg):
